@@ -373,4 +373,53 @@ theorem expectedPath_eq (t : Target) (u : URL) (client : Bytes) (hc : u.escapedP
     · simp [prependStep, hp, slashed_eq_absolutise]
     · simp [prependStep, hp]
 
+/-! ### the cut of `dropEscaped` in the specification's way of counting -/
+
+section Count
+open Fabio.Model.C07Spec
+
+theorem decodedCount_nil : decodedCount [] = 0 := by simp [decodedCount]
+theorem decodedCount_cons (c : UInt8) (s : Bytes) :
+    decodedCount (c :: s) = if c = PCT then 1 + decodedCount (s.drop 2) else 1 + decodedCount s := by
+  rw [decodedCount]
+
+/-- `dropEscaped` leaves a suffix: `s = front ++ dropEscaped n s`, and the front stands for `min n (all)` bytes -/
+theorem dropEscaped_count : ∀ (n : Nat) (s : Bytes),
+    ∃ a, s = a ++ dropEscaped n s ∧ decodedCount a = min n (decodedCount s) := by
+  intro n
+  induction n with
+  | zero => intro s; exact ⟨[], by simp [dropEscaped], by simp [decodedCount_nil]⟩
+  | succ n ih =>
+    intro s
+    cases s with
+    | nil => exact ⟨[], by simp [dropEscaped], by simp [decodedCount_nil]⟩
+    | cons c s =>
+      by_cases hc : c = PCT
+      · obtain ⟨a, h1, h2⟩ := ih (s.drop 2)
+        refine ⟨c :: s.take 2 ++ a, ?_, ?_⟩
+        · simp only [dropEscaped, hc, if_true, List.cons_append, List.append_assoc]
+          rw [← h1, List.take_append_drop]
+        · have hd : (s.take 2 ++ a).drop 2 = (if s.length < 2 then [] else a) := by
+            by_cases hl : s.length < 2
+            · have hs : s.drop 2 = [] := List.drop_eq_nil_of_le (by omega)
+              rw [hs] at h1 h2
+              have ha : a = [] := by
+                have := congrArg List.length h1; simp at this; exact List.eq_nil_of_length_eq_zero (by omega)
+              subst ha
+              simp [hl]
+            · have : (s.take 2).length = 2 := by simp; omega
+              simp [hl, this]
+          rw [List.cons_append, decodedCount_cons, if_pos hc, hd, decodedCount_cons, if_pos hc]
+          by_cases hl : s.length < 2
+          · have hs : s.drop 2 = [] := List.drop_eq_nil_of_le (by omega)
+            simp [hl, hs, decodedCount_nil]
+          · simp only [hl, if_false, h2]; omega
+      · obtain ⟨a, h1, h2⟩ := ih s
+        refine ⟨c :: a, ?_, ?_⟩
+        · simp only [dropEscaped, hc, if_false, List.cons_append]; rw [← h1]
+        · rw [decodedCount_cons, if_neg hc, decodedCount_cons, if_neg hc, h2]; omega
+
+
+end Count
+
 end Fabio.Lemmas.C07
